@@ -3,6 +3,7 @@
 
 pub mod c16;
 pub mod c17;
+pub mod c18;
 pub mod pty;
 pub mod vt;
 
@@ -108,6 +109,7 @@ pub struct ClientEngine {
 pub enum KScenario {
     C16(c16::K16),
     C17(c17::K17),
+    C18(c18::K18),
 }
 
 impl simcore::Engine for ClientEngine {
@@ -128,6 +130,7 @@ impl simcore::Engine for ClientEngine {
     fn generate(&self, rng: &mut simcore::Rng, fault_free: bool) -> KScenario {
         match self.prop {
             "C17" => KScenario::C17(c17::generate(rng, fault_free)),
+            "C18" => KScenario::C18(c18::generate(rng, fault_free)),
             _ => KScenario::C16(c16::generate(rng, fault_free)),
         }
     }
@@ -135,24 +138,28 @@ impl simcore::Engine for ClientEngine {
         match sc {
             KScenario::C16(s) => c16::execute(s),
             KScenario::C17(s) => c17::execute(s),
+            KScenario::C18(s) => c18::execute(s),
         }
     }
     fn shrink(&self, sc: &KScenario) -> Vec<KScenario> {
         match sc {
             KScenario::C16(s) => c16::shrink(s).into_iter().map(KScenario::C16).collect(),
             KScenario::C17(s) => c17::shrink(s).into_iter().map(KScenario::C17).collect(),
+            KScenario::C18(s) => c18::shrink(s).into_iter().map(KScenario::C18).collect(),
         }
     }
     fn describe(&self, sc: &KScenario) -> serde_json::Value {
         match sc {
             KScenario::C16(s) => c16::describe(s),
             KScenario::C17(s) => c17::describe(s),
+            KScenario::C18(s) => c18::describe(s),
         }
     }
     fn expected_probes(&self) -> Vec<&'static str> {
         match self.prop {
             "C16" => vec!["read_timeout_hit", "several_segments_in_one_read", "eof_seen_by_client", "airplanes_table_judged", "whole_feed_processed_at_end", "reconnect_with_aircraft_retained", "clean_exit_on_disconnect", "1090_output_equals_feed"],
             "C17" => vec!["three_events_in_one_poll_window", "quit_during_connect_wait", "drag_event", "enter_on_airplanes_tab", "down_on_airplanes_tab", "aircraft_expire_during_run", "quit_consumed_and_clean_exit", "invalid_command_line_judged"],
+            "C18" => vec!["airplanes_tab_judged", "stats_tab_judged", "map_tab_judged", "receiver_marker_at_centre", "aircraft_label_found", "aircraft_in_ne_quadrant", "aircraft_in_nw_quadrant", "aircraft_in_se_quadrant", "aircraft_in_sw_quadrant", "proportionality_judged", "details_filled", "details_blank", "row_selected_shifted_columns", "aircraft_expired_from_table", "map_compared_before_controls_and_after_reset", "table_unchanged_after_view_controls"],
             _ => vec![],
         }
     }
@@ -167,6 +174,7 @@ impl simcore::Engine for ClientEngine {
         match self.prop {
             "C16" => "seed -> feed of 3..40 lines for 1..5 addresses (well-formed DF17/DF18 identification/position/velocity, DF11/DF4/DF5 replies, upper/lower case; malformed classes: empty, ';', '*;', too short, odd digits, non-hex, non-ASCII, invalid UTF-8, all-zero, undecodable DF, truncated frame, over-long garbage) -> segmentation (line aligned, many lines per segment, random mid-line cuts, one-byte segments, cuts before ';' / newline) with gaps from {0,1,49,50,51,60,200,5000} ms around the 50 ms read timeout, coalescing coins, processing delays, EINTR, FIN/RST at line boundaries or mid-line, refused/timed-out connects and several sessions with --retry-tcp; client = radar (pty, F3 pressed periodically, q at the end) or 1090 (stdout captured). Every 10th run has all fault kinds off. Non-trivial = at least one fault fired and one probe reached; distinct = fingerprint of seam log + terminal output.".to_string(),
             "C17" => "seed -> option set (touchscreen, the five disable flags, limit-parsing, retry-tcp, max-range, scale, filter-time 0..120 s, 0..3 locations) x terminal size {1x1 .. 300x100} x benign traffic of 0..6 aircraft that expire during the run x 5..80 operator events over the full alphabet (function keys, Tab, arrows, Enter, toggles, zoom, keys with modifiers, mouse down/up/drag/scroll/move at tab hit-boxes, touchscreen buttons, row 0 and beyond the screen, resizes, focus, paste), several per poll window, refused connects first, slow iterations; quit (q or ctrl-c) at a random point incl. during the connect wait. 8 % of the faulted runs instead start radar with one invalid option value and look only at the exit status. Non-trivial = at least one fault kind fired (resize, mouse, tiny terminal, refused connect, slow iteration, invalid value) and one probe reached; distinct = fingerprint of seam log + terminal output.".to_string(),
+            "C18" => "seed -> terminal 110..200 x 40..60, filter-time {2,3,1000} s, location markers at the receiver and at offsets d / 2d on each axis, 1..6 aircraft placed in all four quadrants at distinct latitude offsets (identification, position pairs, velocity; one line per segment >= 120 ms apart, some stop early and expire), label toggles. Phase A: tab switches and toggles interleaved with the traffic; phase B (traffic over): zoom / pan / drag / scroll / centre-on-selected-aircraft sequence, reset, then Airplanes, Stats and Map again. Reference = real tracker driven at exactly the virtual times of the child's seam log (every RD and every prune). Non-trivial = at least one fault kind fired (expiry while displayed, view-control sequence) and one probe reached.".to_string(),
             _ => String::new(),
         }
     }
@@ -179,7 +187,7 @@ impl simcore::Engine for ClientEngine {
     }
     fn state_measure(&self) -> &'static str {
         match self.prop {
-            "C17" => "distinct (event history hash, current tab, event, size class) tuples",
+            "C17" => "distinct (current tab, event kind, terminal size class, position in poll window, traffic class) tuples",
             _ => "distinct (seam log, terminal output) fingerprints",
         }
     }
